@@ -4,7 +4,7 @@
 Require Import Cirbo.Model.Base Cirbo.Model.Gate Cirbo.Model.Circuit Cirbo.Model.Traverse Cirbo.Model.Connect
         Cirbo.Model.Eval Cirbo.Model.Sem Cirbo.Model.WF.
 Require Import Cirbo.Proofs.DictFacts Cirbo.Proofs.WFBase Cirbo.Proofs.WFSimple Cirbo.Proofs.WFEmplace
-        Cirbo.Proofs.WFRename2 Cirbo.Proofs.SemFacts Cirbo.Proofs.SemExt Cirbo.Proofs.SemRename
+        Cirbo.Proofs.WFRename2 Cirbo.Proofs.SemFacts Cirbo.Proofs.SemExt Cirbo.Proofs.SemRenameGate
         Cirbo.Proofs.SemBench Cirbo.Proofs.SemBench2 Cirbo.Proofs.SemEvaluate.
 
 Lemma Forall2_Eval_functional c a ls vs vs' :
